@@ -289,6 +289,14 @@ def case_quadric(ctx, cfg):
                     j = None if e is not None else int(np.argwhere(np.asarray(r) != tang[qi])[0][0])
                     ctx.fail(f"quadric:{tag}", tag, {**inputs, "quadric": mats[qi], "hyperplane": None if j is None else P[j]}, None if j is None else bool(tang[qi][j]), e if e is not None else bool(np.asarray(r)[j]))
                     return
+            # history: the same quadric transformed AFTER it has answered queries (stale cached attributes would show here)
+            tQ2, e = ctx.call(lambda: t * Q)
+            r, e2 = ctx.call(tQ2.is_tangent, th) if e is None else (None, e)
+            r3, e3 = ctx.call(tQ2.contains, tp) if e2 is None else (None, e2)
+            ctx.trace(2 * len(P))
+            if e3 is not None or not np.array_equal(np.asarray(r), tang[qi]) or not np.array_equal(np.asarray(r3), on[qi]):
+                ctx.fail("quadric:transformed-after-queries", "(t*Q).is_tangent(t*h) after Q.is_tangent(h)", {**inputs, "quadric": mats[qi]}, "same answers as for a quadric transformed before any query", e3 if e3 is not None else "mismatch")
+                return
         else:
             # the dual quadric transformed directly: contains exactly the images of the tangent hyperplanes
             D, e = ctx.call(lambda: Q.dual)
